@@ -39,7 +39,7 @@ fn sub(name: &'static str, dom: Dom, check: fn(&Case, &mut Obs)) -> Box<dyn SubC
 pub fn property() -> Property {
     Property {
         id: "C03",
-        rule: "one sub-check per predictor type (22 types incl. the three composing wrappers); a case = generated training \
+        rule: "one sub-check per predictor type (22 types incl. the three composing wrappers) plus two strata with extreme Platt arguments; a case = generated training \
                matrix (n 12..=40, p 1..=4, SVM n<=30, isotonic p=1, multinomial NB counts), direction vectors and noise from \
                which targets/labels/blobs are derived, model options, RNG seed, and a query batch of m in {0,1,2..=12} rows (thorough: ..=40) \
                drawn from training rows, fresh rows (scaled beyond the training range) and duplicates, plus permutation keys \
@@ -56,13 +56,17 @@ pub fn property() -> Property {
             "a fit that returns Err or panics is counted as not judged (fitting is the subject of C04/C09-C18); a fitted model with non-finite parameters or non-finite single-row predictions likewise".into(),
             "independent references use naive f64 code with tolerance 1e-10*(1+|a|+|b|+scale); FTRL/Platt probabilities (f32) are compared with absolute 1e-6 / 3e-6".into(),
             "Platt A and B are recovered by calling the public platt_newton_method on the same inputs fit_with uses; monotonicity allows 4 f32 ulps because e/(1+e) evaluated in f32 is not exactly monotone".into(),
-            "queries stay finite and within a few standard deviations of the training data; NaN/inf inputs and feature-count mismatches (documented assertion panics) are not generated".into(),
+            "every calling-form comparison includes predict_inplace into a buffer of default_target's shape pre-filled with a generated junk value, predict_inplace twice into one buffer, and predict_inplace of a second batch of equal length into the buffer holding the first result; all bit-identical to the clean result".into(),
+            "strata platt_extreme / svm_pr_extreme: A*f+B is driven onto ±{0,1e-3,1,10,50,88,89,100,700,1e4,1e30} (platt_predict directly with generated A of both signs and B; a fitted Platt around a mock inner model; Svm<Pr> with a linear kernel and queries scaled by ±1e3..1e6, 1e30): finite, in [0,1], within 3e-6 of the f64 sigmoid, monotone, no panic".into(),
+            "outside those two strata queries stay finite and within a few standard deviations of the training data; NaN/inf inputs and feature-count mismatches (documented assertion panics) are not generated".into(),
             "FastICA (owned Array2 only, not in the statement's list) is not covered; sparse-kernel SVMs are not covered".into(),
             "trusted base: ndarray slicing/striding semantics, linfa's DatasetBase::new, proptest".into(),
         ],
         subs: vec![
             sub("gmm", DOM_P2, models_cluster::check_gmm),
             sub("svm_pr", DOM_SVM, models_svm::check_svm_pr),
+            sub("svm_pr_extreme", DOM_SVM, models_svm::check_svm_pr_extreme),
+            sub("platt_extreme", DOM_SVM, models_wrap::check_platt_extreme),
             sub("multiclass", DOM_SVM, models_wrap::check_multiclass),
             sub("multilogistic", DOM_STD, models_classif::check_multilogistic),
             sub("tweedie", DOM_STD, models_linear::check_tweedie),
